@@ -214,7 +214,7 @@ def invert_pl_function(x: np.ndarray, y: np.ndarray, t: np.ndarray) -> List[np.n
             s[j].append(s_min[j])
 
     # Convert to list of arrays
-    s = [np.asarray(z) for z in s]
+    s = [np.unique(z) for z in s]  # Adjacent-segment roots can round to one float
 
     if t_scalar:  # Reduce back to scalar
         s = s[0]
